@@ -399,6 +399,44 @@ def run(ctx: Context) -> None:
         ctx.check('R05.1', ok and flow.canon(drops[0].func.value) == ('param', ev.params[0]),
                   "extract_vars drops exactly the data variables not requested (coordinates are kept)", ev, drops[0])
 
+        # what is kept beyond the request: the bounds variables that the kept variables and the coordinates name, and nothing else
+        # (bounds of variables that are dropped - another grid's - would come through a selection at full size)
+        from ..pattern import Matcher as _M5
+        from .common import expand_locals as _x5
+        keep = None
+        if isinstance(dl, ast.ListComp) and dl.generators[0].ifs and isinstance(dl.generators[0].ifs[0], ast.Compare) and isinstance(dl.generators[0].ifs[0].comparators[0], ast.Name):
+            keep = dl.generators[0].ifs[0].comparators[0].id
+        grows = []
+        for n in walk_no_nested(ev.node):
+            if isinstance(n, ast.AugAssign) and isinstance(n.target, ast.Name) and n.target.id == keep:
+                grows.append((n, n.value))
+            elif isinstance(n, ast.Assign) and len(n.targets) == 1 and isinstance(n.targets[0], ast.Name) and n.targets[0].id == keep \
+                    and isinstance(n.value, ast.BinOp) and isinstance(n.value.op, ast.BitOr):
+                sides = [n.value.left, n.value.right]
+                other = [x for x in sides if not (isinstance(x, ast.Name) and x.id == keep)]
+                grows += [(n, x) for x in other]
+            elif isinstance(n, ast.Call) and isinstance(n.func, ast.Attribute) and n.func.attr in ('update', 'add', 'union') and isinstance(n.func.value, ast.Name) \
+                    and n.func.value.id == keep and n.args:
+                grows.append((n, n.args[0]))
+        ok_grow = keep is not None
+        detail = []
+        ds_ = ev.params[0]
+        for site, extra in grows:
+            e = flow.resolve(extra)
+            mm = _M5(ctx, ev)
+            good = False
+            if isinstance(e, (ast.SetComp, ast.GeneratorExp, ast.ListComp)) and len(e.generators) == 1 and isinstance(e.generators[0].target, ast.Name):
+                v_ = e.generators[0].target.id
+                src = norm_text(_x5(flow, e.generators[0].iter, keep=[keep]))
+                ifs = [norm_text(t) for t in e.generators[0].ifs]
+                good = (norm_text(e.elt) == f"{ds_}[{v_}].attrs['bounds']" and ifs == [f"'bounds' in {ds_}[{v_}].attrs"]
+                        and src in (f"{keep} | set({ds_}.coords.keys())", f"{keep} | set({ds_}.coords)", f"set({ds_}.coords.keys()) | {keep}", f"{keep}.union({ds_}.coords)",
+                                    f"{keep}.union({ds_}.coords.keys())"))
+            ok_grow = ok_grow and good
+            detail.append(norm_text(e)[:90])
+        ctx.check('R05.1', ok_grow, "beyond the request extract_vars keeps only the bounds variables named by the kept variables and by the coordinates "
+                  "(not the bounds of variables it drops)", ev, grows[0][0] if grows else drops[0], construct=f"additions to the kept names: {detail or 'none'}")
+
     # ------------------------------------------------------------------ extract_points (R05.2)
     with ctx.section('extract_points (R05.2)'):
         ep = ctx.func(f"{PX}.extract_points")
